@@ -21,7 +21,7 @@ const (
 	VerifEvWRel  = 201 // about to release the write lock (<-writeLockC);          a = site
 	VerifEvWGive = 202 // unlockWrite: about to hand the lock to the overflow writer (writeMergedC <- false)
 	VerifEvWTake = 203 // a writer whose merge request overflowed was handed the lock;  a = site
-	VerifEvWToTr = 204 // OpenTransaction succeeded: the write lock now belongs to the Transaction
+	VerifEvWToTr = 204 // OpenTransaction: about to publish db.tr (the write lock now belongs to the Transaction)
 	VerifEvWToCE = 205 // SetReadOnly handed the write lock (with ErrReadOnly) to the compactionError goroutine
 
 	// compCommitLk
